@@ -840,41 +840,3 @@ Proof.
   rewrite Hp in E0. simpl in E0. discriminate.
 Qed.
 
-(* ---------------------------------------------------------------------------------------- *)
-(* T3: m_count is only written by the holder of splock, hence try_subtract's CAS never fails *)
-Lemma tstep_mcount s t s' : tstep s t = Some s' -> m_count s' = m_count s \/ holds_sp (pcof s t) = true.
-Proof. intros H. tstep_cases H; norm; unfold pcof; rewrite ?Hpc; auto. Qed.
-Lemma tstep_to_cas s t s' a mc : tstep s t = Some s' -> pcof s' t = WCas a mc -> mc = m_count s /\ m_count s' = m_count s.
-Proof. intros H. tstep_cases H; apply ltb_lt in Hlt; norm; unfold pcof; rewrite ?Hpc; intros E; try discriminate; inv_some E; auto. Qed.
-
-Definition cas_inv (s : state) : Prop := forall t a mc, (t < nthreads s)%nat -> pcof s t = WCas a mc -> m_count s = mc.
-
-Lemma cas_inv_step s l s' : sp_inv s -> cas_inv s -> step s l = Some s' -> cas_inv s'.
-Proof.
-  intros [S1 S2] Iv H t' a mc Hl He. destruct l.
-  - simpl in H. destruct (start_effect _ _ _ _ H) as (Ht&Hn&Hi&Hh&Fr&_&_&_&Em&_). rewrite Hn in Hl. rewrite Em.
-    destruct (Nat.eq_dec t' t) as [->|N]; [rewrite He in Hh; discriminate|rewrite Fr in He; eauto].
-  - simpl in H. rewrite (tstep_nthreads _ _ _ H) in Hl. pose proof (tstep_sp _ _ _ H) as [Ht _].
-    destruct (Nat.eq_dec t' t) as [->|N].
-    + destruct (tstep_to_cas _ _ _ _ _ H He). congruence.
-    + erewrite tstep_pc_frame in He by eauto. specialize (Iv _ _ _ Hl He).
-      destruct (tstep_mcount _ _ _ H) as [E|E]; [congruence|].
-      assert (Hy : holds_sp (pcof s t') = true) by (rewrite He; reflexivity).
-      pose proof (S1 _ Ht E). pose proof (S1 _ Hl Hy). congruence.
-  - destruct (sched_effect _ _ _ H Logic.I) as (Hn&Hp&_&Em&_). rewrite Hn in Hl. rewrite Hp in He. rewrite Em. eauto.
-  - destruct (sched_effect _ _ _ H Logic.I) as (Hn&Hp&_&Em&_). rewrite Hn in Hl. rewrite Hp in He. rewrite Em. eauto.
-  - destruct (sched_effect _ _ _ H Logic.I) as (Hn&Hp&_&Em&_). rewrite Hn in Hl. rewrite Hp in He. rewrite Em. eauto.
-  - simpl in H. destruct (vstep_effect _ _ _ H) as (Hn&Hp&_&Em&_). rewrite Hn in Hl. rewrite Hp in He. rewrite Em. eauto.
-  - destruct (sched_effect _ _ _ H Logic.I) as (Hn&Hp&_&Em&_). rewrite Hn in Hl. rewrite Hp in He. rewrite Em. eauto.
-Qed.
-
-Lemma cas_never_fails c o ths nv s : reachable (init c o ths nv) s ->
-  forall t a mc, (t < nthreads s)%nat -> pcof s t = WCas a mc -> m_count s = mc.
-Proof.
-  intros R.
-  assert (I : sp_inv s /\ cas_inv s).
-  { eapply (reachable_inv (fun s => sp_inv s /\ cas_inv s)); [| |exact R].
-    - split; [apply sp_inv_init|]. intros t a mc _ E. rewrite init_pcof in E. discriminate.
-    - intros s1 l s2 [I1 I2] H. split; [eapply sp_inv_step; eauto|eapply cas_inv_step; eauto]. }
-  exact (proj2 I).
-Qed.
